@@ -53,6 +53,21 @@ func c15Str(f func() string) (out []int64, ok bool, val string) {
 	return c15OkStr(s), true, s
 }
 
+// c15Label: a named string type with String and Error methods.  The helpers are generic in T ~string; half of
+// the inputs (by the parity of length + function code, so that a replay makes the same choice) are run at this
+// type: a helper that goes through fmt / an interface would print the methods' text instead of the characters.
+type c15Label string
+
+func (l c15Label) String() string { return "label:" + string(l) }
+func (l c15Label) Error() string  { return "err:" + string(l) }
+
+func c15Ap(named bool, s string, plain func(string) string, nm func(c15Label) c15Label) string {
+	if named {
+		return string(nm(c15Label(s)))
+	}
+	return plain(s)
+}
+
 func execC15(in []int64) []int64 {
 	r := &R{w: in}
 	fn := r.Int()
@@ -78,15 +93,26 @@ func execC15(in []int64) []int64 {
 		}
 	}
 	s := r.Bytes()
+	named := (len(s)+fn)%2 == 1
 	one := func(f func() string) []int64 { o, _, _ := c15Str(f); return o }
 	switch fn {
 	case 1:
 		off, ln := r.Int(), r.Int()
-		return one(func() string { return gogu.Substr(s, off, ln) })
+		return one(func() string {
+			return c15Ap(named, s, func(x string) string { return gogu.Substr(x, off, ln) }, func(x c15Label) c15Label { return gogu.Substr(x, off, ln) })
+		})
 	case 2:
 		idx := r.Int()
 		var parts []string
-		if try(func() { parts = gogu.SplitAtIndex(s, idx) }) {
+		if try(func() {
+			if named {
+				for _, p := range gogu.SplitAtIndex(c15Label(s), idx) {
+					parts = append(parts, string(p))
+				}
+				return
+			}
+			parts = gogu.SplitAtIndex(s, idx)
+		}) {
 			return resPanic()
 		}
 		w := (&W{}).Int(0).Int(len(parts))
@@ -99,35 +125,55 @@ func execC15(in []int64) []int64 {
 		return one(func() string {
 			switch fn {
 			case 3:
-				return gogu.Pad(s, size, tok)
+				return c15Ap(named, s, func(x string) string { return gogu.Pad(x, size, tok) }, func(x c15Label) c15Label { return gogu.Pad(x, size, tok) })
 			case 4:
-				return gogu.PadLeft(s, size, tok)
+				return c15Ap(named, s, func(x string) string { return gogu.PadLeft(x, size, tok) }, func(x c15Label) c15Label { return gogu.PadLeft(x, size, tok) })
 			}
-			return gogu.PadRight(s, size, tok)
+			return c15Ap(named, s, func(x string) string { return gogu.PadRight(x, size, tok) }, func(x c15Label) c15Label { return gogu.PadRight(x, size, tok) })
 		})
 	case 6:
 		tok := r.Bytes()
-		return one(func() string { return gogu.Wrap(s, tok) })
+		return one(func() string {
+			return c15Ap(named, s, func(x string) string { return gogu.Wrap(x, tok) }, func(x c15Label) c15Label { return gogu.Wrap(x, tok) })
+		})
 	case 7:
 		tok := r.Bytes()
-		return one(func() string { return gogu.Unwrap(s, tok) })
+		return one(func() string {
+			return c15Ap(named, s, func(x string) string { return gogu.Unwrap(x, tok) }, func(x c15Label) c15Label { return gogu.Unwrap(x, tok) })
+		})
 	case 8:
 		tok := r.Bytes()
-		return one(func() string { return gogu.WrapAllRune(s, tok) })
+		return one(func() string {
+			return c15Ap(named, s, func(x string) string { return gogu.WrapAllRune(x, tok) }, func(x c15Label) c15Label { return gogu.WrapAllRune(x, tok) })
+		})
 	case 9:
-		return one(func() string { return gogu.ReverseStr(s) })
+		return one(func() string {
+			return c15Ap(named, s, func(x string) string { return gogu.ReverseStr(x) }, func(x c15Label) c15Label { return gogu.ReverseStr(x) })
+		})
 	case 10:
-		return one(func() string { return gogu.ToLower(s) })
+		return one(func() string {
+			return c15Ap(named, s, func(x string) string { return gogu.ToLower(x) }, func(x c15Label) c15Label { return gogu.ToLower(x) })
+		})
 	case 11:
-		return one(func() string { return gogu.ToUpper(s) })
+		return one(func() string {
+			return c15Ap(named, s, func(x string) string { return gogu.ToUpper(x) }, func(x c15Label) c15Label { return gogu.ToUpper(x) })
+		})
 	case 12:
-		return one(func() string { return gogu.Capitalize(s) })
+		return one(func() string {
+			return c15Ap(named, s, func(x string) string { return gogu.Capitalize(x) }, func(x c15Label) c15Label { return gogu.Capitalize(x) })
+		})
 	case 13:
-		return one(func() string { return gogu.CamelCase(s) })
+		return one(func() string {
+			return c15Ap(named, s, func(x string) string { return gogu.CamelCase(x) }, func(x c15Label) c15Label { return gogu.CamelCase(x) })
+		})
 	case 14:
-		return one(func() string { return gogu.SnakeCase(s) })
+		return one(func() string {
+			return c15Ap(named, s, func(x string) string { return gogu.SnakeCase(x) }, func(x c15Label) c15Label { return gogu.SnakeCase(x) })
+		})
 	case 15:
-		return one(func() string { return gogu.KebabCase(s) })
+		return one(func() string {
+			return c15Ap(named, s, func(x string) string { return gogu.KebabCase(x) }, func(x c15Label) c15Label { return gogu.KebabCase(x) })
+		})
 	case 16:
 		var out []int64
 		n := 0
